@@ -590,6 +590,8 @@ func init() {
 	register("C06", func(c *core.Ctx) {
 		c.Res.Rule = smtpRule + "; limits 0..5000 bytes with bodies and SIZE parameters (truthful, lying, malformed, repeated) on both sides of them"
 		runSmtpProfile(c, smtpProfile{name: "c06", n: [2]int{1200, 40000}, errRate: 6, smallMax: true, bigBody: true, namings: []string{"local", "full"}})
+		// clients that do not wait for the 354 (DATA and the message in one write): the size that counts is still that of the whole block
+		runSmtpProfile(c, smtpProfile{name: "c06pipe", n: [2]int{400, 12000}, errRate: 4, smallMax: true, bigBody: true, namings: []string{"local"}, pipelined: true})
 		if f, ok := extra["C06"]; ok {
 			f(c)
 		}
